@@ -5,7 +5,9 @@ Driver logic of `nadrv-c11` for the session model of C09 in compare mode (the C0
 of `NA/Model/GateDrv.lean` stays as it is; these lines are recognised by their first field).
 
   SESS  backend  shape  planGenuine  planEmpty  iptGenuine  iptEmpty  faultPos  faultKind  fuel
-        (TAB separated; fields as for nadrv-c09, the mode is always compare)
+        (TAB separated; fields as for nadrv-c09, the mode is always compare; faultKind `rejected`:
+        the device answers the configuration retrieval at faultPos with a configuration the
+        parser of the code rejects, see `rejectedAnswer`)
     →   dexit=<n> err=<0|1> warn=<0|1> chg=<0|1> ro=<0|1> blk=<…> sends=<role:line~line;…>
         `ro` = the specification predicate `ReadOnlyTrace` evaluated on the model's trace.
   VOCAB backend  line US line US …     (US = U+001F; canonicalised lines a REAL run put on the wire)
@@ -55,6 +57,22 @@ def showSends (tr : List Ev) : String :=
 def showBlk : Blk → String
   | .out => "out" | .conf => "conf" | .width => "width" | .bad => "bad"
 
+/-- **A device configuration the parser rejects** (dangling reference, bad indentation of
+sub-commands, an unexpected route).  The session programs of C09 have `ParseConfig` as an
+operation that cannot fail for the command-line backends, so this outcome is stated here, from the
+control flow of the source: `LoadDevice` returns `While reading device: …` (ASA, IOS) —
+`compareDevice` and `compare` hand the error up, `ApproveOrCompare` calls `CloseConnection` (the
+line `exit`) and then `Abort`s; the Linux parsers `Abort` on the spot and its `CloseConnection` is
+empty.  So: the lines of the fault-free run up to and including the retrieval (the `fp`-th line),
+then `exit` on ASA / IOS, nothing else; exit status 1, the `ERROR>>>` marker, no `device changed`.
+Tied like every other `SESS` answer: `harness/c11` compares it with the real run of every case of
+kind `rejected`. -/
+def rejectedAnswer (b : Backend) (env0 : Env) (fp : Nat) : String :=
+  let s0 := runProg b env0
+  let close := if b == .asa || b == .ios then ["exit"] else []
+  let all := (sentLines s0.tr).take fp ++ close
+  s!"dexit=1 err=1 warn=0 chg=0 ro={b2s (all.all (allowedLines b).contains)} blk={showBlk (stepLines .out all)} sends={";".intercalate (all.map ("read:" ++ ·))}"
+
 def answer (line : String) : String :=
   match splitTab line with
   | ["SESS", bs, shape, pg, pe, ig, ie, fp, kind, fuel] =>
@@ -70,6 +88,9 @@ def answer (line : String) : String :=
         compare := true
         simulated := true
         fuel := fuel.toNat?.getD 50 }
+      if kind == "rejected" then
+        rejectedAnswer b { env with dev := mkDev b (parseShape shape) none "-" } (fp.toNat?.getD 0)
+      else
       let s := runProg b env
       s!"dexit={exitCode s} err={b2s (s.tr.contains .logErr)} warn={b2s (s.tr.contains .logWarn)} chg={b2s (s.tr.contains .logChanged)} ro={b2s (decide (ReadOnlyTrace b s.tr))} blk={showBlk (blkOf s.tr)} sends={showSends s.tr}"
   | ["VOCAB", bs, ls] =>
